@@ -25,6 +25,8 @@ import (
 
 func init() { suites["WATCH"] = suiteWatch }
 
+var watchContent bool
+
 func nsNames(m namespace.Manager) string {
 	nn, err := m.Namespaces(context.Background())
 	if err != nil {
@@ -32,7 +34,11 @@ func nsNames(m namespace.Manager) string {
 	}
 	var out []string
 	for _, n := range nn {
-		out = append(out, hx(n.Name))
+		if watchContent { // OPL rounds: a version is identified by the content of its namespaces, not only by their names
+			out = append(out, hx(strings.TrimPrefix(cfgTok([]*namespace.Namespace{n}), "1 ")))
+		} else {
+			out = append(out, hx(n.Name))
+		}
 	}
 	sort.Strings(out)
 	if len(out) == 0 {
@@ -172,6 +178,16 @@ func suiteWatch(t *testing.T, cfg cfgT) {
 			if opl {
 				n1 := fmt.Sprintf("%s%dx", strings.ToUpper(f), version)
 				n2 := fmt.Sprintf("%s%dy", strings.ToUpper(f), version)
+				if valid && hr.chance(1, 3) {
+					// the SAME names, relation names and types in every version of this file; only a permission body (and the
+					// second namespace's relations) changes: the new version must be served whole
+					k1, k2 := strings.ToUpper(f)+"K", strings.ToUpper(f)+"L"
+					body := []string{"this.related.r.includes(ctx.subject)", "this.related.r.includes(ctx.subject) || this.related.s.includes(ctx.subject)",
+						"this.related.r.includes(ctx.subject) && !this.related.s.includes(ctx.subject)"}[version%3]
+					extra := []string{"", " t: " + k1 + "[]"}[version%2]
+					return fmt.Sprintf("class %s implements Namespace { related: { r: %s[]; s: %s[] } permits = { p: (ctx) => %s } }\nclass %s implements Namespace { related: { u: %s[];%s } }",
+						k1, k1, k1, body, k2, k1, extra), true, []string{k1, k2}
+				}
 				switch {
 				case valid && hr.chance(1, 3):
 					return fmt.Sprintf("class %s implements Namespace {}\nclass %s implements Namespace { related: { r: %s[] } }", n1, n2, n1), true, []string{n1, n2}
@@ -262,6 +278,7 @@ func suiteWatch(t *testing.T, cfg cfgT) {
 		if opl {
 			kind = "opl"
 		}
+		watchContent = opl
 		out.emit("wreset "+kind, "-")
 		emit := func(e ev, seen []string) {
 			// the initial directory scan delivers the files in directory order; the model takes them in name order (files are independent)
